@@ -310,6 +310,9 @@ def judge_multi(h: Harness, site, rec, label, variant=None):
         # without a user-supplied aggregate, "best aggregate" is the sum of the components with the minimised ones negated:
         # computed here from the components the individuals carry and the DECLARED directions
         hist = [[r["uid"], sum(-as_int(c) if m else as_int(c) for c, m in zip(r["comps"], mins))] for r in rec.rows]
+    elif variant == "user":
+        # the user's aggregate is the first component -- also when that is exactly 0
+        hist = [[r["uid"], as_int(r["comps"][0])] for r in rec.rows]
     fronts = [list(r["front"]) for r in rec.rows]
     flags = [bool(r["is_best"]) for r in rec.rows]
     vals = [x[1] for x in hist]
@@ -542,6 +545,50 @@ def check_one_tracker_several_searches(h: Harness):
             judge_single(h, "SingleObjectiveProgressTracker.evaluate", rec, minimize, desc)
 
 
+def check_adaptive_gp(h: Harness):
+    """AdaptiveGeneticProgramming re-draws its population size when the search stagnates.  Whatever size the next generation has, every
+    individual the steps evaluated on the way reaches the tracker: at the end of the search the returned individual is at least as
+    good as everything the fitness function was ever asked about"""
+    from geneticengine.algorithms.gp.adaptive import AdaptiveGeneticProgramming
+    from geneticengine.algorithms.gp.structure import PopulationInitializer
+    from geneticengine.evaluation.budget import AnyOf, TimeBudget
+
+    class Plain(PopulationInitializer):
+        def initialize(self, problem, representation, random, target_size, **kwargs):
+            for _ in range(target_size):
+                yield Individual(representation.create_genotype(random), representation)
+    rng = h.rng
+    for trial in range(h.n(4, 80)):
+        minimize = trial % 2 == 0
+        keys = [rng.randint(0, 2000) for _ in range(997)]
+        seen: list = []
+
+        def ff(ph, seen=seen):
+            seen.append(ph[1])
+            return float(ph[1])
+        problem = SingleObjectiveProblem(ff, minimize=minimize)
+        tracker = SingleObjectiveProgressTracker(problem, SequentialEvaluator())
+        rep = ScriptRep(keys)
+        try:
+            alg = AdaptiveGeneticProgramming(problem, AnyOf(EvaluationBudget(rng.choice([2500, 4000])), TimeBudget(60)), rep, NativeRandomSource(rng.randrange(10**6)), tracker)
+            alg.population_initializer = Plain()
+            alg.population_size = rng.choice([300, 500])
+            ret = alg.search()
+        except Exception as e:  # noqa: BLE001
+            h.fail("AdaptiveGeneticProgramming.search", "raises", f"AdaptiveGeneticProgramming raised {type(e).__name__}: {e}"[:300], {"trial": trial})
+            continue
+        h.count("adaptive-gp-runs")
+        h.seen(f"adaptive-gp:{trial}", nontrivial=len(seen) > 600)
+        if ret is None:
+            continue
+        rv = float(ret.genotype[1])
+        best_seen = min(seen) if minimize else max(seen)
+        if (best_seen < rv) if minimize else (best_seen > rv):
+            h.fail("AdaptiveGeneticProgramming.search", "evaluated-individual-never-reached-the-tracker",
+                   f"AdaptiveGeneticProgramming ({'min' if minimize else 'max'}imise, {len(seen)} evaluations): search() returned an individual of fitness {rv}, "
+                   f"but the fitness function had returned {best_seen} for a program evaluated during the search", {"trial": trial})
+
+
 class TapStep(GeneticStep):
     """the real step, unchanged; remembers the uid of every individual it yields (the members of the generations)"""
 
@@ -669,3 +716,4 @@ def run(h: Harness):
     check_scale_invariance(h)
     check_searches(h)
     check_one_tracker_several_searches(h)
+    check_adaptive_gp(h)
